@@ -5,7 +5,7 @@ P=$(readlink -f "$1"); shift
 W=$(mktemp -d /tmp/evalscratch.XXXXXX)
 git -C /repo worktree add -q --detach "$W/src" HEAD || exit 3
 trap 'git -C /repo worktree remove --force "$W/src" 2>/dev/null; rm -rf "$W"' EXIT INT TERM
-git -C "$W/src" apply "$P" || { echo "patch does not apply"; exit 3; }
+git -C "$W/src" apply "$P" || { for id in "$@"; do echo "$id exit=3 patch does not apply"; done; exit 3; }
 cd /verif
 for id in "$@"; do
   VERIF_REPO="$W/src" ./check "$id" > "$W/out" 2>&1; rc=$?
